@@ -441,6 +441,11 @@ func (x *Exec) loopCut(fr *Frame, st *State, b *ssa.BasicBlock, backEdge bool) b
 		for _, inv := range lc.Invariants {
 			st.Assume(x.safeEvalBool(&env2, inv.E, label+" invariant"))
 		}
+		// lemma instances named by the loop contract (validated at load time to be lemma applications only) also hold
+		// at the loop head of an arbitrary iteration
+		for _, u := range lc.Uses {
+			st.Assume(x.safeEvalBool(&env2, u, label+" uses"))
+		}
 		if lc.Decr != nil {
 			ctx.decr0 = toInt(env2.eval(lc.Decr))
 		}
